@@ -190,12 +190,12 @@ Fixpoint string_body (fuel : nat) (q : N) (esc : bool) (l : str) : option str * 
           let '(c2, w2) := decode l1 in
           if c2 =? 10 then (None, w)
           else
-            let out := if c2 =? 110 then [10] else if c2 =? 116 then [9] else encode c2 in
+            let out := if c2 =? 110 then [10] else if c2 =? 116 then [9] else firstn w2 l1 in
             let '(o, n) := string_body f q true (skipn w2 l1) in
             (option_map (app out) o, w + w2 + n)%nat
         end
       else
-        let out := if esc then encode c else firstn w l in
+        let out := firstn w l in
         let '(o, n) := string_body f q esc (skipn w l) in
         (option_map (app out) o, w + n)%nat
     end
